@@ -29,6 +29,9 @@ type tcase struct {
 	HistTag  string
 	HistLim  uint32
 	Hist     bool
+	// Neighbour: a second series of the same name with another tag set (one value 7 at rate 0.25) shares the
+	// batches: 1 = it arrives first, 2 = it arrives last. Its own statistics are checked as well.
+	Neighbour int
 }
 
 var ratePats = [][]float64{{1}, {0.5}, {0.5, 0.25}}
@@ -50,6 +53,11 @@ func mask(m int) (gostatsd.TimerSubtypes, map[string]bool) {
 }
 
 func run(c tcase) (t gostatsd.Timer, found bool, panicMsg string) {
+	t, found, _, _, panicMsg = run2(c)
+	return
+}
+
+func run2(c tcase) (t gostatsd.Timer, found bool, sib gostatsd.Timer, sibFound bool, panicMsg string) {
 	defer func() {
 		if p := recover(); p != nil {
 			panicMsg = fmt.Sprintf("%v\n%s", p, debug.Stack())
@@ -63,6 +71,12 @@ func run(c tcase) (t gostatsd.Timer, found bool, panicMsg string) {
 	}
 	rp := ratePats[c.RatePat]
 	mm := gostatsd.NewMetricMap(false)
+	neighbour := func() {
+		mm.Receive(&gostatsd.Metric{Name: "t", Type: gostatsd.TIMER, Value: 7, Rate: 0.25, Tags: gostatsd.Tags{"sib:1"}, Timestamp: 5})
+	}
+	if c.Neighbour == 1 {
+		neighbour()
+	}
 	for i, v := range c.Values {
 		mm.Receive(&gostatsd.Metric{Name: "t", Type: gostatsd.TIMER, Value: v, Rate: rp[i%len(rp)], Tags: append(gostatsd.Tags{}, tags...), Timestamp: 5})
 		if c.Grouping == 1 {
@@ -70,12 +84,17 @@ func run(c tcase) (t gostatsd.Timer, found bool, panicMsg string) {
 			mm = gostatsd.NewMetricMap(false)
 		}
 	}
-	if c.Grouping == 0 {
-		ag.ReceiveMap(mm)
+	if c.Neighbour == 2 {
+		neighbour()
 	}
+	ag.ReceiveMap(mm) // (empty when every value went in a batch of its own)
 	ag.Flush(c.Interval)
 	ag.Process(func(m *gostatsd.MetricMap) {
 		m.Timers.Each(func(name, tk string, tm gostatsd.Timer) {
+			if len(tm.Tags) == 1 && tm.Tags[0] == "sib:1" {
+				sib, sibFound = tm, true
+				return
+			}
 			t, found = tm, true
 		})
 	})
@@ -87,10 +106,20 @@ func check(c tcase) {
 	bad := func(kind, msg string) {
 		res.Violate(kind, fmt.Sprintf("%s: case %+v: %s", kind, c, msg), c)
 	}
-	t, found, pm := run(c)
+	t, found, sib, sibFound, pm := run2(c)
 	if pm != "" {
 		bad("panic "+strings.SplitN(pm, "\n", 2)[0], pm)
 		return
+	}
+	if c.Neighbour != 0 {
+		iv := float64(c.Interval) / float64(time.Second)
+		if !sibFound {
+			bad("neighbour-missing", "the neighbouring series was not reported")
+		} else if sib.Count != 4 || !timerref.Close(sib.PerSecond, 4/iv) || sib.Min != 7 || sib.Max != 7 || sib.Sum != 7 || len(sib.Values) != 1 {
+			bad("neighbour-stats", fmt.Sprintf("neighbouring series (one value 7 at rate 0.25): count=%d per_second=%v min=%v max=%v sum=%v values=%v", sib.Count, sib.PerSecond, sib.Min, sib.Max, sib.Sum, sib.Values))
+		}
+	} else if sibFound {
+		bad("phantom", "a series never sent was reported")
 	}
 	if len(c.Values) == 0 {
 		if found {
@@ -165,8 +194,10 @@ func check(c tcase) {
 			bad("pct-unexpected", fmt.Sprintf("unexpected percentile sub-metric %s=%v (want %v)", k, got[k], w.Pct))
 		}
 	}
-	distinct[fmt.Sprintf("%v%v%d", sortedCopy(c.Values), c.Pcts, c.Mask)] = struct{}{}
+	distinct[fmt.Sprintf("%v%v%d/%d", sortedCopy(c.Values), c.Pcts, c.Mask, c.Neighbour)] = struct{}{}
 }
+
+func ii2(nb int) int { return nb % 2 * 2 } // intervals[2] / intervals[0]
 
 func sortedCopy(v []float64) []float64 {
 	o := append([]float64{}, v...)
@@ -218,6 +249,16 @@ func main() {
 								}
 								check(tcase{Values: cur, RatePat: rpi, Grouping: g, Pcts: pl, Interval: iv, Mask: m})
 							}
+						}
+					}
+				}
+			}
+			// two series of one name sharing the batches (either arrival order)
+			for nb := 1; nb <= 2; nb++ {
+				for rpi := range ratePats {
+					for g := 0; g < 2; g++ {
+						for _, pl := range [][]float64{nil, {90}, {-50, 50}} {
+							check(tcase{Values: cur, RatePat: rpi, Grouping: g, Pcts: pl, Interval: intervals[ii2(nb)], Mask: 0, Neighbour: nb})
 						}
 					}
 				}
